@@ -21,6 +21,7 @@ Fixpoint run_pool_events (limit : nat) (known : list N) (l : pool) (evs : list p
                | PE_send _ v => VL [vbool (match v with Some _ => true | None => false end)]
                | PE_connect _ => VL [vlist (fun a => VN (snd a)) out]
                | PE_get hs => VL [vlist (fun a => VL [VN (fst a); VN (snd a)]) (relay_get hs l)]
+               | PE_disconnect _ => VL []
                end in
       VL [v; probe known l'] :: run_pool_events limit known l' tl
   end.
@@ -38,6 +39,7 @@ Fixpoint step_vals (limit : nat) (l : pool) (evs : list pev) : list val * pool :
                | PE_send _ v => VL [vbool (match v with Some _ => true | None => false end)]
                | PE_connect _ => VL [vlist (fun a => VN (snd a)) out]
                | PE_get hs => VL [vlist (fun a => VL [VN (fst a); VN (snd a)]) (relay_get hs l)]
+               | PE_disconnect _ => VL []
                end in
       let '(vs, lf) := step_vals limit l' tl in (v :: vs, lf)
   end.
